@@ -3,8 +3,9 @@
 (* C19 trace validation.                                                   *)
 (*  cachelist : after a command through the cached handle - what the cache *)
 (*              directory holds for a file type and what the repository    *)
-(*              holds: AfterList = every cached snapshot / index file is   *)
-(*              in the repository with the same size;                      *)
+(*              holds, and whether the command listed that type through    *)
+(*              its handle: AfterList = after a listing every cached       *)
+(*              snapshot / index file is in the repository, same size;     *)
 (*  twin      : per-step results of the history with the cache in use and  *)
 (*              of the same history without any cache: SameResults.        *)
 (***************************************************************************)
@@ -20,7 +21,7 @@ Pairs(s) == {<<s[i].k, s[i].len>> : i \in DOMAIN s}
 
 Verdict(r) ==
   CASE r.e = "cachelist" ->
-         IF r.res = "ok" /\ ~(Pairs(r.cache) \subseteq Pairs(r.repo))
+         IF r.res = "ok" /\ r.listed /\ ~(Pairs(r.cache) \subseteq Pairs(r.repo))
          THEN {<<"AfterList", r.tpe, r.cmd, Pairs(r.cache) \ Pairs(r.repo)>>} ELSE {}
     [] r.e = "twin" ->
          {<<"SameResults", i, r.cached[i], r.plain[i]>> :
